@@ -46,12 +46,21 @@ theorem genCfg_recvOk : RecvOk genCfg := by
 SOURCE channel and its sequence, and every caller on the refund path (middleware -> keeper -> hook -> IBCCoinRefund ->
 IbcRefund -> ConvertCoin) hands its callee's error up to IBC core -/
 theorem genCfg_sound : Sound genCfg :=
-  ⟨by decide, by decide, by decide, by decide, by decide, by decide, by decide, by decide, by decide⟩
+  ⟨by decide, by decide, by decide, by decide, by decide, by decide, by decide, by decide, by decide, by decide⟩
 
 /-- every branch of `OnAcknowledgementPacket` / `OnTimeoutPacket` deletes under the prefix, channel end and sequence the
 record was written under -/
 theorem genCfg_removes : Removes genCfg :=
-  ⟨by decide, by decide, by decide, by decide, by decide, by decide, by decide, by decide, by decide, by decide⟩
+  ⟨by decide, by decide, by decide, by decide, by decide, by decide, by decide, by decide, by decide, by decide, by decide⟩
+
+/-- order of the steps inside `IBCMiddleware.OnAcknowledgementPacket` / `OnTimeoutPacket` (regenerated): the wrapped ICS-20
+application FIRST (it hands the coins back), then the keeper hook (it converts what was handed back), every error
+returned to IBC core.  The model's `refundState` (`refundApp`, then `refundHook` on the resulting balances) and
+`settleBy` are written for exactly this order: with the hook in front it would look for a voucher the sender does not hold
+yet. -/
+theorem genCfg_middleware_steps :
+    FxVerif.Gen.C19.ackMiddlewareSteps = ["app:returned", "decode-ack:returned", "decode-data:returned", "hook:returned"] ∧
+    FxVerif.Gen.C19.timeoutMiddlewareSteps = ["app:returned", "decode-data:returned", "hook:returned"] := by decide
 
 /-! ## 1. inbound transfer: exact credit in ERC-20 form, or error acknowledgement and nothing changes -/
 
@@ -383,7 +392,7 @@ theorem alias_metadata_refund_stuck (cfg : Cfg) (hs : Sound cfg) (hE : cfg.ackEr
   exact settle_refund_stuck cfg hs hE hT (runWith cfg init ops) e mode hm h he hB hc ⟨haf, hmeta⟩
 
 -- the hypotheses are satisfiable: the pre-fix reference configuration is sound
-example : Sound (refCfg 4) ∧ (refCfg 4).aliasFirst = false := ⟨⟨rfl, rfl, rfl, rfl, rfl, rfl, rfl, rfl, rfl⟩, rfl⟩
+example : Sound (refCfg 4) ∧ (refCfg 4).aliasFirst = false := ⟨⟨rfl, rfl, rfl, rfl, rfl, rfl, rfl, rfl, rfl, by decide⟩, rfl⟩
 
 /-- witness (tree independent): metadata on the voucher of channel 0, transfer of 40 started from the EVM, timeout -/
 theorem alias_metadata_refund_stuck_witness :
@@ -393,6 +402,114 @@ theorem alias_metadata_refund_stuck_witness :
     (stepWith { refCfg 4 with aliasFirst := true } (runWith { refCfg 4 with aliasFirst := true } init ops)
       (.settle 0 1 .timeout)).2 = .done 100 0 0 0 100 100 [] := by
   constructor <;> decide
+
+/-! ## 3b. acknowledgements as they are on the wire: the refund decision is made on the KIND of the acknowledgement -/
+
+/-- The acknowledgement a counterparty writes is the JSON form of a protobuf oneof `{ bytes result; string error }`; its
+wire shapes are: result with / without content, error with a reason / with an EMPTY reason, no arm set, bytes the codec
+rejects.  Two pieces of code decide what a shape means: the ICS-20 transfer application (does it un-escrow / re-mint)
+and the middleware's keeper hook (does it convert the refund back to ERC-20 and drop the record, or only drop the record).
+Both are regenerated as decision programs — `Keeper.OnAcknowledgementPacket` of this repository and of the ibc-go version
+named in go.mod — and interpreted on every shape.  For EVERY shape the codec accepts: the hook refunds exactly when the
+application refunds, and runs the success clean-up otherwise.  In particular an error acknowledgement with an empty
+reason is a failure for both, and a result without content or an acknowledgement with no arm is a success for both. -/
+theorem ack_decision_agrees (w : AckWire) (b : Bool) (h : genCfg.appRefunds w = some b) :
+    genCfg.ackAct w = if b then .refund else .after :=
+  ackAgrees_at genCfg (by decide) w b h
+
+/-- what the application decides, shape by shape (regenerated from the module cache): it refunds on the error arm —
+whatever the text —, not on the result arm or on an acknowledgement with no arm, and fails on undecodable bytes -/
+theorem app_ack_decision :
+    genCfg.appRefunds (.error true) = some true ∧ genCfg.appRefunds (.error false) = some true ∧
+    genCfg.appRefunds (.result true) = some false ∧ genCfg.appRefunds (.result false) = some false ∧
+    genCfg.appRefunds .unset = some false ∧ genCfg.appRefunds .undecodable = none := by decide
+
+/-- For every state: an acknowledgement on the wire that the application classifies (`b` = it refunds) is processed
+EXACTLY as the settlement of that class — so every statement of this file about `.settle l seq .ackErr` / `.ackOk` holds
+for every acknowledgement of that class, whatever its content.  Depends on the regenerated decision programs. -/
+theorem wire_ack_settles_as_classified (s : State) (l : Ch) (seq : Seq) (w : AckWire) (b : Bool)
+    (h : genCfg.appRefunds w = some b) :
+    step s (.ackw l seq w) = step s (.settle l seq (if b then .ackErr else .ackOk)) :=
+  stepWith_ackw genCfg (by decide) (by decide) (by decide) s l seq w b h
+
+/-- bytes the codec rejects: the callback returns an error, IBC core rolls the relayer's transaction back, nothing
+changes and the packet stays committed (or there is no such packet) -/
+theorem wire_ack_undecodable_changes_nothing (s : State) (l : Ch) (seq : Seq) :
+    step s (.ackw l seq .undecodable) = (s, .stuck s.ctl.rel) ∨ step s (.ackw l seq .undecodable) = (s, .noop s.ctl.rel) :=
+  stepWith_ackw_undecodable genCfg s l seq .undecodable (by decide)
+
+/-- C19, refund clause, for acknowledgements as they are on the wire: in any reachable state, EVERY error acknowledgement
+of an in-flight EVM-originated transfer of the aliased token — with a reason or with an empty one — raises the sender's
+ERC-20 balance by exactly the sent amount, changes nobody else's ERC-20 balance, leaves the sender's bank coins as they
+were, logs exactly one refund in ERC-20 form and removes exactly the transfer's record (`hon` as in
+`evm_refund_credits_erc20`). -/
+theorem wire_error_ack_refunds_erc20 (ops : List Op) (e : SentRec) (nonEmpty : Bool)
+    (he : e ∈ (run init ops).ctl.evmSent) (hB : e.tok = .A)
+    (hc : ∃ x ∈ (run init ops).ctl.commits, x.1 = e.key)
+    (hon : (run init ops).bal.paused = false ∧ (run init ops).bal.off.contains ETok.base = false) :
+    let s := run init ops
+    let r := step s (.ackw e.ch e.seq (.error nonEmpty))
+    r.2.isDone ∧
+    sget r.1.bal.erc (e.sender, ETok.base) = sget s.bal.erc (e.sender, ETok.base) + e.amt ∧
+    (∀ k, k ≠ (e.sender, ETok.base) → sget r.1.bal.erc k = sget s.bal.erc k) ∧
+    (e.sender ≠ transferMod → e.sender ≠ erc20Mod → ∀ d, sget r.1.bal.bank (e.sender, d) = sget s.bal.bank (e.sender, d)) ∧
+    r.1.ctl.refundLog = ⟨e.ch, e.seq, e.sender, .A, e.amt, true⟩ :: s.ctl.refundLog ∧
+    r.1.ctl.rel = dropRel s.ctl.rel (e.ch, e.seq) := by
+  have hcl : genCfg.appRefunds (.error nonEmpty) = some true := by cases nonEmpty <;> decide
+  have := wire_ack_settles_as_classified (run init ops) e.ch e.seq (.error nonEmpty) true hcl
+  simp only [↓reduceIte] at this
+  intro s r
+  show (step (run init ops) (.ackw e.ch e.seq (.error nonEmpty))).2.isDone ∧ _
+  rw [this]
+  exact evm_refund_credits_erc20 ops e .ackErr (by decide) he hB hc hon
+
+/-- … and every acknowledgement that is not an error — result with or without content, no arm set — of ANY committed
+transfer changes no balance of anybody, refunds nothing, and removes exactly the record of that transfer -/
+theorem wire_success_ack_only_removes_record (s : State) (l : Ch) (seq : Seq) (w : AckWire)
+    (hw : genCfg.appRefunds w = some false) :
+    let r := step s (.ackw l seq w)
+    r.1.bal = s.bal ∧ r.1.ctl.refundLog = s.ctl.refundLog ∧ (r.2.isDone → r.1.ctl.rel = dropRel s.ctl.rel (l, seq)) := by
+  have := wire_ack_settles_as_classified s l seq w false hw
+  simp only [Bool.false_eq_true, ↓reduceIte] at this
+  show (step s (.ackw l seq w)).1.bal = s.bal ∧ (step s (.ackw l seq w)).1.ctl.refundLog = s.ctl.refundLog ∧
+    ((step s (.ackw l seq w)).2.isDone → (step s (.ackw l seq w)).1.ctl.rel = dropRel s.ctl.rel (l, seq))
+  rw [this]
+  refine ⟨?_, ?_, settle_frame genCfg genCfg_removes s l seq .ackOk⟩
+  · simp only [step, stepWith, settle]
+    cases lookup (l, seq) s.ctl.commits <;> first | rfl | simp [settleState]
+  · simp only [step, stepWith, settle]
+    cases lookup (l, seq) s.ctl.commits <;> first | rfl | simp [settleState, ackOkCtl]
+
+-- non-vacuity: an in-flight EVM-originated transfer, acknowledged with an EMPTY error text: refunded as ERC-20, record gone
+example : (step (run init [.chan 0 1, .fund 5 .A 0 100, .send 0 5 .A 40]) (.ackw 0 1 (.error false))).2 = .done 100 0 0 0 100 100 [] := by
+  decide
+example : (step (run init [.chan 0 1, .fund 5 .A 0 100, .send 0 5 .A 40]) (.ackw 0 1 (.result false))).2 = .done 60 0 0 0 60 60 [] := by
+  decide
+example : (step (run init [.chan 0 1, .fund 5 .A 0 100, .send 0 5 .A 40]) (.ackw 0 1 .unset)).2 = .done 60 0 0 0 60 60 [] := by
+  decide
+example : (step (run init [.chan 0 1, .fund 5 .A 0 100, .send 0 5 .A 40]) (.ackw 0 1 .undecodable)).2 = .stuck [(0, 1)] := by
+  decide
+
+/-- why the KIND and not the TEXT must decide (tree independent): a hook that treats an acknowledgement as rejected only
+when its error text is non-empty.  An ibc-go counterparty (reason always present) sees no difference; a counterparty that
+answers `{"error":""}` makes the transfer application hand the voucher back while the hook runs the success clean-up:
+the sender of an EVM-originated transfer keeps 40 in BANK form, gets no ERC-20 back, and the record is gone, so no retry
+can ever convert it.  With the decision on the kind the same acknowledgement refunds 40 as ERC-20. -/
+theorem empty_error_text_witness :
+    let ops := [Op.chan 0 1, .fund 5 .A 0 100, .send 0 5 .A 40, .ackw 0 1 (.error false)]
+    let byText : Cfg := { refCfg 4 with aliasFirst := true, ackProg := [(.errNonEmpty, .refund), (.not .errNonEmpty, .after)] }
+    let byKind : Cfg := { refCfg 4 with aliasFirst := true }
+    let bad := runWith byText init ops
+    let good := runWith byKind init ops
+    byText.ackAgrees = false ∧ byKind.ackAgrees = true ∧
+    sget bad.bal.erc (5, ETok.base) = 60 ∧ sget bad.bal.bank (5, Denom.vA 0) = 40 ∧ bad.ctl.rel = [] ∧
+      bad.ctl.refundLog = [⟨0, 1, 5, .A, 40, false⟩] ∧ bad.ctl.commits = [] ∧
+    sget good.bal.erc (5, ETok.base) = 100 ∧ sget good.bal.bank (5, Denom.vA 0) = 0 ∧ good.ctl.rel = [] ∧
+      good.ctl.refundLog = [⟨0, 1, 5, .A, 40, true⟩] ∧
+    -- with a reason in the text the two hooks cannot be told apart
+    runWith byText init [Op.chan 0 1, .fund 5 .A 0 100, .send 0 5 .A 40, .ackw 0 1 (.error true)] =
+      runWith byKind init [Op.chan 0 1, .fund 5 .A 0 100, .send 0 5 .A 40, .ackw 0 1 (.error true)] := by
+  decide
 
 /-! ## 4. the relation record is removed on success, failure and timeout alike — that record and no other -/
 
@@ -637,7 +754,9 @@ Theorems of this file:
   relation_removed_always_reachable, relation_records_are_inflight, evm_transfer_settled_one_way,
   genCfg_is_ref, success_ack_keeps_relation_witness, success_ack_removes_relation_fixed,
   success_ack_keeps_relation_general, crossed_channels_wrong_end_witness, returning_native_coin_guard_witness,
-  settled_is_final, relation_key_text, relation_key_injective, send_records_own_key, erc20_supply_backed
+  settled_is_final, relation_key_text, relation_key_injective, send_records_own_key, erc20_supply_backed,
+  ack_decision_agrees, app_ack_decision, wire_ack_settles_as_classified, wire_ack_undecodable_changes_nothing,
+  wire_error_ack_refunds_erc20, wire_success_ack_only_removes_record, empty_error_text_witness, genCfg_middleware_steps
 -/
 
 end FxVerif.Props.C19
